@@ -110,3 +110,11 @@ func replaySched(find func(name string) *explore.Scenario, v *fw.Violation) stri
 }
 
 func deadlineIn(d time.Duration) time.Time { return time.Now().Add(d) }
+
+func sortStrings(s []string) {
+	for i := 1; i < len(s); i++ {
+		for j := i; j > 0 && s[j-1] > s[j]; j-- {
+			s[j-1], s[j] = s[j], s[j-1]
+		}
+	}
+}
